@@ -111,6 +111,14 @@ def declare_struct(name, fields):
     return STRUCT_TYPES[name]
 
 
+class ArrV(object):
+    """A bare mathematical array (bound variable of an axiom / lemma, or the contents of a list): a[i] is a select."""
+    __slots__ = ("term", "ety")
+
+    def __init__(self, term, ety):
+        self.term, self.ety = term, ety
+
+
 class RefV(object):
     """A reference (object, list, dict); term is a z3 Int, 0 encodes None."""
     __slots__ = ("term", "ty")
@@ -263,6 +271,8 @@ class Registry(object):
         self.lemmas = []
         self.globals = {}     # (module, name) -> (Ty, [invariant strings])
         self.tuple_sorts = {}
+        self.extern_c = {}      # python extension module name -> C source (relative to the repo)
+        self.noop_fields = {"_logger"}
 
     def declare_class(self, cname, fields):
         for f, t in fields.items():
